@@ -238,7 +238,7 @@ def gen_scenarios(rng, thorough):
     def add(family, n_jobs, managed, calls, **kw):
         scs.append(dict(id=len(scs), family=family, n_jobs=n_jobs, managed=managed, calls=calls, **kw))
 
-    reps = 4 if thorough else 1
+    reps = 10 if thorough else 3
     for _ in range(reps):
         # A. every instant x every way of dying
         for inst, how in itertools.product(INSTANTS, HOWS_TASK):
@@ -288,7 +288,7 @@ def gen_scenarios(rng, thorough):
         for mb, how, managed in itertools.product((0.05, 0.2, 1, 8, 32), ("SIGKILL", "SIGTERM", "exit"), (False, True)):
             n_jobs = rng.choice([2, 3])
             c0 = dict(n_tasks=3, batch_size=1, faults={str(rng.randint(0, 2)): dict(instant="mid-send", how=how, payload_mb=mb)})
-            add("task:mid-send", n_jobs, managed, [c0, _clean_call(rng)], timeout=30)
+            add("task:mid-send", n_jobs, managed, [c0, _clean_call(rng)], timeout=20)
         # H. the design probe itself: 600 MB result, SIGKILL 1.3 s into the task
         add("task:timer-600MB", 2, False,
             [dict(n_tasks=4, faults={"0": dict(instant="timer", how="SIGKILL", delay=1.3, payload_mb=600)}), _clean_call(rng)],
